@@ -4,10 +4,12 @@ import (
 	"crypto/sha256"
 	"encoding/hex"
 	"fmt"
+	"math"
 	"os"
 	"path/filepath"
 	"sort"
 	"strings"
+	"unicode/utf8"
 
 	"github.com/mk6i/mkdb/engine"
 	"github.com/mk6i/mkdb/storage"
@@ -909,6 +911,31 @@ func describe(s *Stmt) string {
 func (t *timeline) noteProbes(s *Stmt, exp *Expect, recOps []byte) {
 	w := t.w
 	if s.Kind == KInsert && exp.OK {
+		if db := t.m.CurDB(); db != nil {
+			if tb := db.Table(s.Table); tb != nil && len(s.ColNames) == 0 {
+				for _, row := range s.Rows {
+					if len(row) == len(tb.Cols) && EncSize(tb.Cols, row) == MaxRowBytes {
+						t.probe("row_exactly_400_bytes")
+					}
+				}
+			}
+		}
+		for _, row := range s.Rows {
+			for _, v := range row {
+				switch {
+				case v.IsNull():
+					t.probe("val_null")
+				case v.K == "i" && (v.I == math.MaxInt32 || v.I == math.MinInt32):
+					t.probe("val_int32_extreme")
+				case v.K == "i" && (v.I == math.MaxInt64 || v.I == math.MinInt64):
+					t.probe("val_int64_extreme")
+				case v.K == "s" && len(v.S) == 0:
+					t.probe("val_empty_string")
+				case v.K == "s" && !utf8.Valid(v.S):
+					t.probe("val_non_utf8_string")
+				}
+			}
+		}
 		for _, op := range recOps {
 			if op == 1 {
 				t.probe("root_move")
